@@ -111,3 +111,5 @@ func samlResponseInBody(body string) ([]byte, string, bool) {
 }
 
 func xmlUnmarshalStrict(b []byte, v any) error { return xml.Unmarshal(b, v) }
+
+func urlQueryEscape(s string) string { return url.QueryEscape(s) }
